@@ -189,6 +189,18 @@ def ref_heun(net, dt, steps, extra_at=None):
 # ----------------------------------------------------------------------------------------------------------
 # seeded generator
 # ----------------------------------------------------------------------------------------------------------
+NAMEPOOL = ['p0', 'p1', 'p2', 'p3', 'p4', 'p5', 'p10', 'p11', 'pc', 'ein', 'iin', 'exc', 'inh', 'a1', 'bb', 'n2', 'n10',
+            'zz', 'E', 'q_3']
+
+
+def node_names(rng, n):
+    """node keys whose declaration order is (usually) NOT lexicographic: order-sensitive wiring must follow the
+    declaration order, not a sorted one"""
+    if rng.random() < 0.25:
+        return [f'p{i}' for i in range(n)]
+    return rng.sample(NAMEPOOL, n)
+
+
 def _grid(rng, lo, hi, q):
     """a value on the grid k/q in [lo, hi] (exactly representable in float32 for q a power of two)"""
     return rng.randint(int(lo * q), int(hi * q)) / q
@@ -204,9 +216,11 @@ def gen_net(rng, n_nodes=None, libs=('lin', 'sat', 'osc', 'leak', 'integ'), max_
     spec = {'name': 'c' + uniq, 'build': build or rng.choice(['python', 'yaml']), 'ops': {}, 'nts': {}, 'edges': []}
     for k in sorted(set(kinds)):
         spec['ops'][k + uniq] = {'lib': k, 'name': k + uniq, 'defaults': dict(LIB[k]['defaults'])}
+        if rng.random() < 0.3 and not LIB[k].get('array'):
+            spec['ops'][k + uniq]['decl'] = 'dict'      # variables declared as definition dicts (Python builds only)
     pool = list(range(-96, 97))
     rng.shuffle(pool)
-    names = [f'p{i}' for i in range(n)]
+    names = node_names(rng, n)
     node_kind = {}
     nodes = {}
     for i, nm in enumerate(names):
@@ -257,6 +271,19 @@ def gen_net(rng, n_nodes=None, libs=('lin', 'sat', 'osc', 'leak', 'integ'), max_
 # ----------------------------------------------------------------------------------------------------------
 # builders
 # ----------------------------------------------------------------------------------------------------------
+def _as_definition(decl):
+    """the same declaration written as a full definition dict (vtype/value/dtype/shape), the other form the Python
+    frontend accepts"""
+    if isinstance(decl, dict):
+        return decl
+    if isinstance(decl, float):
+        return {'vtype': 'constant', 'value': decl, 'dtype': 'float', 'shape': (1,)}
+    kind, val = decl.split('(')
+    val = float(val[:-1])
+    vtype = {'output': 'output', 'variable': 'state_var', 'input': 'input'}[kind]
+    return {'vtype': vtype, 'value': val, 'dtype': 'float', 'shape': (1,)}
+
+
 def _vardecl(lib, defaults):
     L = LIB[lib]
     out = {}
@@ -282,9 +309,10 @@ def build_python(spec, pool=None):
     ops = {}
     for k, o in spec['ops'].items():
         if ('op', k) not in pool:
-            pool[('op', k)] = OperatorTemplate(
-                name=o['name'], equations=list(LIB[o['lib']]['eqs']),
-                variables=_vardecl(o['lib'], {**LIB[o['lib']]['defaults'], **o.get('defaults', {})}))
+            decl = _vardecl(o['lib'], {**LIB[o['lib']]['defaults'], **o.get('defaults', {})})
+            if o.get('decl') == 'dict':
+                decl = {v: _as_definition(d) for v, d in decl.items()}
+            pool[('op', k)] = OperatorTemplate(name=o['name'], equations=list(LIB[o['lib']]['eqs']), variables=decl)
         ops[k] = pool[('op', k)]
     nts = {}
     for k, nt in spec['nts'].items():
@@ -381,6 +409,8 @@ def gen_aliased(rng, uniq='', hier=None, build='python', libs=('lin', 'leak', 's
     spec = {'name': 'c' + uniq, 'build': build, 'ops': {}, 'nts': {}, 'edges': []}
     for k in sorted(set(kinds)):
         spec['ops'][k + uniq] = {'lib': k, 'name': k + uniq, 'defaults': dict(LIB[k]['defaults'])}
+        if rng.random() < 0.4:
+            spec['ops'][k + uniq]['decl'] = 'dict'
     ntk = []
     for i in range(rng.randint(1, 3)):
         k = rng.choice(sorted(set(kinds)))
@@ -392,7 +422,7 @@ def gen_aliased(rng, uniq='', hier=None, build='python', libs=('lin', 'leak', 's
         spec['nts'][key] = {'name': key, 'ops': [k + uniq], 'var': ({k + uniq: var} if var else {})}
         ntk.append(key)
     n = rng.randint(2, 5)
-    names = [f'p{i}' for i in range(n)]
+    names = node_names(rng, n)
     assign = {nm: rng.choice(ntk) for nm in names}
     kind_of = {nm: spec['ops'][spec['nts'][assign[nm]]['ops'][0]]['lib'] for nm in names}
 
